@@ -4,7 +4,7 @@ import ast
 from ..program import AnalysisError, U, own_nodes, walk_no_nested
 from ..dataflow import ReachingDefs, defs_of_node
 from ..consteval import fold
-from .common import (need, guards_of, calls_to, ext_calls, all_paths_pass, succs, normal_succs, path_conditions,
+from .common import (match_exact, guard_atom_sets, path_atom_sets, unmatched, need, guards_of, calls_to, ext_calls, all_paths_pass, succs, normal_succs, path_conditions,
                      is_param, arg_of, default_of, stores_in_package)
 from . import C10
 
@@ -58,10 +58,10 @@ def choice(R):
     R.ob('C19.choice', 'entry chosen by the target scheme', ok, 'proxy looked up with %s' % U(o), func=f, node=o)
     lits = {(t, p) for (t, p, _) in guards_of(g, pn)}
     name = purl.id if isinstance(purl, ast.Name) else None
-    R.ob('C19.choice', 'proxied arm only for a truthy entry', lits == {(name, True)}, '_connect_proxy under %s' % sorted(lits),
+    R.ob('C19.choice', 'proxied arm only for a truthy entry', match_exact(guard_atom_sets(g, pn), [{(name, True)}]), '_connect_proxy under %s' % sorted(lits),
          func=f, node=pcall)
     dc = calls_to(R, g, S + '._connect_sock')
-    okd = len(dc) == 1 and {(t, p) for (t, p, _) in guards_of(g, dc[0][0])} == {(name, False)}
+    okd = len(dc) == 1 and match_exact(guard_atom_sets(g, dc[0][0]), [{(name, False)}])
     if okd:
         c = dc[0][1]
         cs = R.func(S + '._connect_sock')
@@ -209,7 +209,7 @@ def gate(R):
     rvar = U(y.ast.value)
     bad = []
     for l in path_conditions(R, g2, rd2, g2.entry, y):
-        if ('%s.status_code != 200' % rvar, False) not in l or len(l) != 1:
+        if not match_exact(path_atom_sets(l), [{('%s.status_code == 200' % rvar, True)}]):
             bad.append(sorted(l))
     R.ob('C19.gate', 'a response is yielded only for status 200', not bad,
          'ProxyParser yields a response under %s (required: exactly status_code == 200)' % bad[:1], func=q2, node=y.ast)
